@@ -386,6 +386,11 @@ def batch(a, prop, machine, t0):
         os.makedirs(os.path.join(VERIF_DIR, "evidence"), exist_ok=True)
         with open(os.path.join(VERIF_DIR, "evidence", prop + ".json"), "w") as f:
             json.dump(ev, f, indent=1, sort_keys=True)
+        if tier == "thorough":
+            # keep the last thorough-tier evidence next to the (quick) file the harness rewrites
+            os.makedirs(os.path.join(VERIF_DIR, "evidence", "thorough"), exist_ok=True)
+            with open(os.path.join(VERIF_DIR, "evidence", "thorough", prop + ".json"), "w") as f:
+                json.dump(ev, f, indent=1, sort_keys=True)
     print("%s tier=%s runs=%d events=%d distinct_traces=%d nontrivial=%d oracle_q=%d violations=%d known_hits=%s wall=%.1fs%s" % (
         prop, tier, agg["runs"], agg["events"], len(agg["traces"]), len(agg["nt_traces"]), agg["oracle_queries"],
         vio_count, known_hits, wall, " (wall-capped)" if capped else ""))
